@@ -47,4 +47,4 @@ CONFIG["required_theorems"] = CONFIG.get("required_theorems", []) + ['pool_useco
 # C18:client-expired-during-io evaluated in Nfs41/Corr.v) and the model facts it rests on (ProofsLease41.v)
 CONFIG["coq_targets"] = CONFIG["coq_targets"] + ['theories/Nfs41/Properties2Lease.vo']
 CONFIG["properties_files"] = CONFIG["properties_files"] + ['theories/Nfs41/Properties2Lease.v']
-CONFIG["required_theorems"] = CONFIG.get("required_theorems", []) + ['enter_clock_monotone41', 'expiry_only_after_lease41', 'enter_keeps_record41', 'held_client_survives_enter41', 'release_records_now41', 'sequence_pins_client41', 'sequence_end_renews_lease41', 'sequence_end_keeps_held41', 'create_session_touch_records_now41', 'reachable_expiry_only_after_lease_partial', 'inflight_compound_pins_client41', 'reachable_now_le_clock41', 'reachable_expiry_before_clock41', 'lease_monitor_accepts_model_trace', 'lease_monitor_rejects_early_expiry']
+CONFIG["required_theorems"] = CONFIG.get("required_theorems", []) + ['enter_clock_monotone41', 'expiry_only_after_lease41', 'enter_keeps_record41', 'held_client_survives_enter41', 'release_records_now41', 'sequence_pins_client41', 'sequence_end_renews_lease41', 'sequence_end_keeps_held41', 'create_session_touch_records_now41', 'reachable_expiry_only_after_lease_partial', 'inflight_compound_pins_client41', 'reachable_now_le_clock41', 'reachable_expiry_before_clock41', 'dump_expiry_before_clock41', 'dump_inflight_client_survives41', 'lease_check_sound_for_expiry_partial', 'lease_monitor_accepts_model_trace', 'lease_monitor_rejects_early_expiry']
